@@ -15,14 +15,14 @@ LEMMA_FILES = ['PncProofs/IoapiLemmas.lean']
 REQUIRED_THEOREMS = ['coherent_updatemeta', 'coherent_step', 'coherent_run', 'zero_listed_counterexample']
 RULE = ('IOAPI files from five sources (from_arrays gridded/boundary, from_arrays plus an unlisted 2-D variable, '
         'saved to disk and reopened with the ioapi reader, GRIDDESC text gridded/boundary) x sequences of 1-4 '
-        'operations (copy, sliceDimensions with int/slice windows on 1-2 dimensions, subsetVariables, renameVariable, '
+        'operations (copy, sliceDimensions with int / unit and strided slice / index-list windows on 1-2 dimensions, subsetVariables, renameVariable, '
         'applyAlongDimensions with reducers and length-changing callables, eval incl. 17-character and existing '
-        'names and inplace, mask, stack along TSTEP/LAY, interpSigma linear/conserve); after EVERY step the '
+        'names and inplace, mask, stack along TSTEP/LAY with a file or a list of files, interpSigma linear/conserve); after EVERY step the '
         'complete metadata state (NVARS, VAR-LIST, VAR, TFLAG width and rows, variables and their dimensions, '
         'NROWS/NCOLS/NLAYS, VGLVLS, SDATE/STIME/TSTEP, XORIG/YORIG/XCELL/YCELL, dimension lengths) is compared '
         'with the Lean model and the ten equalities of the property are evaluated on the real file (oracle); '
         'non-trivial = a sequence with at least two operations of different kinds that completes')
-ASSUMPTIONS = ['variable data is outside this model (C01-C06); all VAR columns of TFLAG are equal (checked on every observed state)',
+ASSUMPTIONS = ['negative strides on TSTEP (files running backwards in time) are not generated', 'variable data is outside this model (C01-C06); all VAR columns of TFLAG are equal (checked on every observed state)',
                'VGLVLS and origins are float32/float64 in the code and rationals in the model: compared within 1e-6 relative',
                'eval is exercised with single assignments (the order in which several new names are appended follows set iteration order)',
                'TSTEP > 0 files only (time-independent files are not generated)']
@@ -172,7 +172,7 @@ def coherent(f):
     return bad
 
 
-FNS = {'id': lambda x: x, 'first2': lambda x: x[:2]}
+FNS = {'id': lambda x: x, 'first2': lambda x: x[:2], 'rev': lambda x: x[::-1]}
 
 
 def resolve(recipe, f):
@@ -186,7 +186,15 @@ def resolve(recipe, f):
         L = dims[d]
         if L == 0:
             return ['s', None, None]
-        m = c % 8
+        m = c % 11
+        if m == 8:
+            st = [2, 3, -1, -2][b % 4] if d != 'TSTEP' else [2, 3][b % 2]     # reversed time is outside the domain
+            return ['t', None, None, st] if a % 2 else ['t', a % L, None, st]
+        if m >= 9:
+            if k == 'slice2':       # index lists on two dimensions select points, not a window
+                return ['s', None, None]
+            n = 1 + a % L
+            return ['l', sorted({(a + 3 * j) % L for j in range(n)})] if m == 9 else ['l', [(a + j) % L - L for j in range(n)]]
         if m < 3:
             return ['i', a % (2 * L) - L]
         lo = a % L
@@ -222,7 +230,7 @@ def resolve(recipe, f):
         return ['rename', o, [o + 'R', 'RENAMED', 'Y' * 17][r[1] % 3]]
     if k == 'apply':
         ds = sorted(dims)
-        return ['apply', ds[r[0] % len(ds)], ['mean', 'min', 'max', 'sum', 'id', 'first2'][r[1] % 6]]
+        return ['apply', ds[r[0] % len(ds)], ['mean', 'min', 'max', 'sum', 'id', 'first2', 'rev'][r[1] % 7]]
     if k == 'eval':
         if not data:
             return ['copy']
@@ -231,7 +239,7 @@ def resolve(recipe, f):
     if k == 'mask':
         return ['mask']
     if k == 'stack':
-        return ['stack', ['TSTEP', 'LAY'][r[0] % 2]]
+        return ['stack', ['TSTEP', 'LAY'][r[0] % 2], r[1] % 3 == 0]
     n = 1 + r[0] % 4
     lv = sorted(set([64, 0] + [r[1 + i] % 64 for i in range(n - 1)]), reverse=True)
     return ['interp', ['%d/64' % x for x in lv], ['linear', 'conserve'][r[5] % 2]]
@@ -244,7 +252,7 @@ def apply_op(f, op):
     if k == 'slice':
         kw = {}
         for d, w in op[1]:
-            kw[d] = w[1] if w[0] == 'i' else slice(w[1], w[2])
+            kw[d] = w[1] if w[0] in 'il' else (slice(w[1], w[2]) if w[0] == 's' else slice(w[1], w[2], w[3]))
         return f.sliceDimensions(**kw)
     if k == 'subset':
         return f.subsetVariables(list(op[1]))
@@ -257,7 +265,7 @@ def apply_op(f, op):
     if k == 'mask':
         return f.mask(greater=5)
     if k == 'stack':
-        return f.stack(f.copy(), op[1])
+        return f.stack([f.copy()] if len(op) > 2 and op[2] else f.copy(), op[1])
     if k == 'interp':
         return f.interpSigma(np.array([float(Fraction(x)) for x in op[1]]), interptype=op[2])
     raise ValueError(k)
@@ -291,8 +299,17 @@ def impl(case):
 def tok(op):
     k = op[0]
     if k == 'slice':
+        def o(v):
+            return '_' if v is None else str(v)
+
         def w(x):
-            return 'i:%d' % x[1] if x[0] == 'i' else 's:%s:%s' % ('_' if x[1] is None else x[1], '_' if x[2] is None else x[2])
+            if x[0] == 'i':
+                return 'i:%d' % x[1]
+            if x[0] == 's':
+                return 's:%s:%s' % (o(x[1]), o(x[2]))
+            if x[0] == 't':
+                return 't:%s:%s:%d' % (o(x[1]), o(x[2]), x[3])
+            return 'l:' + '.'.join(str(v) for v in x[1])
         return 'slice@' + ';'.join('%s~%s' % (d, w(x)) for d, x in op[1])
     if k == 'subset':
         return 'subset@' + ('.'.join(op[1]) or '-')
